@@ -68,12 +68,9 @@ package search
 //@   assert at alloc:Branch: c.List[0].Branch != "HEAD"
 //@   ensures forall j int :: 0 <= j && j < len(shards) && (shards[j].repos == nil || anyMatch(shards[j].repos)) ==> (exists a int :: 0 <= a && a < len(result0) && result0[a] == shards[j])
 
-// query.Simplify builds new query nodes; it does not write the shard list
-// (assumed frame).
-//@ func query.Simplify
-//@   trusted
-//@   flag only_for=search.
-//@   assigns nothing
+// query.Simplify is used under its own (verified) contract: it writes nothing
+// that existed before and returns a query of the same meaning
+// (query/zz_verif_contracts_c05.go).
 
 // ---------------------------------------------------------------------------
 // What each kind of repository filter accepts (the closures handed to
